@@ -12,7 +12,7 @@ BUDGET = {"quick": 20, "thorough": 420}
 EVIDENCE = {
     "rule": "operation histories of <= 40 operations (append, peek get(n), consuming get(n, skip=True), skip(n, allow_prune), "
             "len, bool, terminal getfile().read(), close) on OverflowableBuffer(overflow) with payload sizes drawn around the "
-            "8 KiB string limit and around the overflow threshold (0, 1, limit-1, limit, limit+1) for overflow in "
+            "8 KiB string limit and around the overflow threshold (0, 1, limit-1, limit, limit+1; 6 % of the histories with thresholds around and above the 256 KiB copy block, up to 600000) for overflow in "
             "{0,1,2,100,8191,8192,8193,20000}; and ReadOnlyFileBasedBuffer over seekable/unseekable files with an initial "
             "offset, prepare(size) below/at/above the remaining length, then get/skip/len or iteration; checked operation by "
             "operation against a bytearray; distinct = distinct history (hash of operations and results); non-trivial = at "
@@ -92,10 +92,18 @@ def gen(W):
     sc = {"kind": W.choice(["overflowable", "overflowable", "readonly"])}
     if sc["kind"] == "overflowable":
         ov = W.choice(OVERFLOWS)
-        sc["overflow"] = ov
         sizes = size_classes(ov)
+        nmax = 39
+        if W.chance(0.06):
+            # thresholds of the order of the defaults (inbuf_overflow 512 KiB, outbuf_overflow 1 MiB): a migration
+            # then carries more than one COPY_BYTES block
+            C = wb.COPY_BYTES
+            ov = W.choice([C + 1, C - 1, C, 2 * C, 2 * C + 17, 600000])
+            sizes = sorted({0, 1, 5000, wb.STRBUF_LIMIT, 65536, 100000, C - 1, C, C + 1, ov - 1, ov, ov + 1})
+            nmax = 9
+        sc["overflow"] = ov
         ops = []
-        for _ in range(2 + W.draw(39)):
+        for _ in range(2 + W.draw(nmax)):
             o = W.weighted([6, 4, 2, 4, 1, 1])
             if o == 0:
                 ops.append(["append", W.choice(sizes)])
@@ -345,8 +353,10 @@ def run_one(tapes, tier, scenario=None):
                 except Exception as e:  # noqa
                     bad("raised", type(e).__name__ + ":iterate", "iteration raised %r" % (e,))
                 trace.append(("iterate", len(out)))
-                if bytes(out) != avail:
-                    bad("iterate", "wrong_bytes", "iteration yielded %d bytes, the file holds %d from its position" % (len(out), len(avail)))
+                # iterating hands out the rest of the file block by block (the task clamps to the declared length);
+                # stopping at the prepared size would satisfy the property just as well
+                if bytes(out) != avail and not (sc["seekable"] and bytes(out) == avail[:prepared or 0]):
+                    bad("iterate", "wrong_bytes", "iteration yielded %d bytes, the file holds %d from its position (prepared %r)" % (len(out), len(avail), prepared))
                 note("iterate", len(out))
         try:
             rb.close()
